@@ -2,6 +2,7 @@ package sim
 
 import (
 	"context"
+	"crypto/sha256"
 	"encoding/binary"
 	"errors"
 	"fmt"
@@ -166,6 +167,9 @@ type SimDA struct {
 	// Yield, when set, is called (no lock held) at the start of every read and listing: the seam for slow callers
 	// (SpinJitter).
 	Yield func()
+	// CommitmentIDs: blob ids are height + commitment of the blob (identical blobs in one height share an id)
+	// instead of height + serial number.
+	CommitmentIDs bool
 	// DeafSubmit: submissions do not watch the caller's context (see submit).
 	DeafSubmit bool
 	// SlowRead is how long a ReadSlowOK listing takes (default 31 s: longer than the retriever's per-request timeout).
@@ -261,7 +265,15 @@ func (d *SimDA) Plant(h uint64, data []byte, by string) []byte {
 
 func (d *SimDA) putLocked(h uint64, data []byte, by string, call int) *BlobRec {
 	d.serial++
-	rec := &BlobRec{ID: makeID(h, d.serial), Data: append([]byte(nil), data...), Height: h, By: by, Call: call}
+	id := makeID(h, d.serial)
+	if d.CommitmentIDs {
+		// like Celestia: an id is the height and the blob's commitment - two copies of a blob in one height share it
+		sum := sha256.Sum256(data)
+		id = make([]byte, 8, 40)
+		binary.LittleEndian.PutUint64(id, h)
+		id = append(id, sum[:]...)
+	}
+	rec := &BlobRec{ID: id, Data: append([]byte(nil), data...), Height: h, By: by, Call: call}
 	d.heights[h] = append(d.heights[h], rec)
 	d.byID[string(rec.ID)] = rec
 	if _, ok := d.times[h]; !ok {
